@@ -133,6 +133,17 @@ BROADCAST_TIMING = [(1001, 30000), (1001, 60000), (1001, 24000), (1001, 48000), 
                     (25, 2997), (50, 2997), (900900, 27000000), (1080000, 27000000)]
 
 
+def gen_colour_description(rng):
+    """present colour description; a quarter of them carry exactly the values the standard infers when it is absent (2, 2, 2 =
+    unspecified), another quarter small registered code points, the rest arbitrary bytes"""
+    c = rng.random()
+    if c < 0.25:
+        return (2, 2, 2)
+    if c < 0.5:
+        return tuple(rng.choice([0, 1, 2, 2, 5, 9, 16, 18]) for _ in range(3))
+    return (rng.randrange(256), rng.randrange(256), rng.randrange(256))
+
+
 def gen_vui(rng, max_num_ref_frames, shape=None):
     """shape: None (random) or dict forcing nal/vcl hrd presence etc."""
     v = {}
@@ -140,7 +151,7 @@ def gen_vui(rng, max_num_ref_frames, shape=None):
     v["sar"] = (rng.choice([0, 1, 65535]), rng.choice([0, 1, 65535]))
     v["overscan"] = pick(rng, [None, True, False])
     v["vst"] = None if rng.random() < 0.5 else {"vf": rng.randrange(8), "fr": rng.random() < 0.5,
-                                                 "cd": None if rng.random() < 0.5 else (rng.randrange(256), rng.randrange(256), rng.randrange(256))}
+                                                 "cd": None if rng.random() < 0.5 else gen_colour_description(rng)}
     v["chroma_loc"] = None if rng.random() < 0.6 else (ue_val(rng, 5), ue_val(rng, 5))
     v["timing"] = None if rng.random() < 0.4 else (pick(rng, [0, 1, 1001, 0xffffffff, rng.getrandbits(32)]),
                                                    pick(rng, [0, 1, 50, 60000, 0xffffffff, rng.getrandbits(32)]), rng.random() < 0.5)
@@ -158,6 +169,9 @@ def gen_vui(rng, max_num_ref_frames, shape=None):
         mdfb = max_num_ref_frames + pick(rng, [0, 1, 5]) if max_num_ref_frames < UE_MAX - 5 else max_num_ref_frames
         v["restr"] = {"mv": rng.random() < 0.5, "a": ue_val(rng, 16), "b": ue_val(rng, 16), "c": ue_val(rng, 16), "d": ue_val(rng, 16),
                       "reorder": pick(rng, [0, min(1, mdfb), mdfb]), "mdfb": mdfb}
+        if rng.random() < 0.2:
+            # present, but carrying exactly the values E.2.1 infers when the restrictions are absent
+            v["restr"].update({"mv": True, "a": 2, "b": 1, "c": 16, "d": 16})
     else:
         v["restr"] = None
     return v
